@@ -7,7 +7,9 @@ GEN_FILES = ['Symbols', 'Grammars']
 THEOREMS = ['Dsd.Symbols.no_unresolved_global', 'Dsd.C16.reader_never_faults', 'Dsd.C16.readLine_never_faults_fresh',
             'Dsd.C16.typed_lineOK', 'Dsd.C16.resolveKernel_ok', 'Dsd.C16.resolveKernel_total',
             'Dsd.C16.pil_lines_typed', 'Dsd.C16.read_text_faults_only_recursion', 'Dsd.C16.read_text_never_faults',
-            'Dsd.C16.ssw_lines_shape', 'Dsd.PP.run_shape', 'Dsd.PP.parseDoc_shape']
+            'Dsd.C16.ssw_lines_shape', 'Dsd.PP.run_shape', 'Dsd.PP.parseDoc_shape',
+            'Dsd.C16.read_short_text_never_faults', 'Dsd.C16.kernel_pattern_lt_length', 'Dsd.C16F.readLineFull_eq', 'Dsd.C16F.readDocFull_eq',
+            'Dsd.C16F.typed_fullLine', 'Dsd.C16F.Ex.finding_empty_composite']
 ASSUMPTIONS = [
     'static part: the global-name reference table of every function / method / lambda / comprehension / class body of the package is '
     'regenerated with symtable by translator/gen.py; a name bound anywhere at module level (incl. inside if/try, via import or import *) '
@@ -33,7 +35,13 @@ MANIFEST = {
             'interpreter for every grammar term) and pil_lines_typed (whatever text parses, every line has a shape PilLine the reader '
             'handles), hence read_text_faults_only_recursion: FOR ANY TEXT, slot configuration and ignore list, parse-then-read returns '
             'the dictionary, a parse error or a declared error, and the only possible fault is the RecursionError of a kernel pattern '
-            'nested deeper than the recursion budget (read_text_never_faults: none at all when the parsed patterns fit the budget); '
+            'nested deeper than the recursion budget (read_text_never_faults: none at all when the parsed patterns fit the budget; '
+            'read_short_text_never_faults: none at all for texts of at most 1000 characters - input accounting bounds the pattern '
+            'size by the text length); readLineFull_eq / readDocFull_eq: a second, independent statement-by-statement transcription '
+            'of objectio.py (Model/ReaderFull.lean: Python indexing with IndexError, comprehensions that abort, the fallback loop over '
+            'the growing list, the four conditional expressions of read_reaction) computes exactly what Model/Reader computes on '
+            'every grammar-shaped line and document (one kernel-checked difference outside the grammar: a composite domain with no '
+            'domains); '
             'C14.failed_read_restores covers the state after a failed read. On the real code: only parse '
             'errors or declared errors escape, ignored reactions do not abort the read, a failed read leaves previously held objects '
             'valid singletons; faults are shrunk to minimal documents. When the symbol theorem breaks, the corpora are driven to the '
